@@ -558,23 +558,30 @@ fn gen_window(r: &mut Rng) -> String {
         let d = 1 + r.below(4);
         let (a, b) = if r.chance(2) { ('>', '<') } else { ('<', '>') };
         rep(out, a, d);
-        match r.below(5) {
+        match r.below(7) {
             0 => out.push(','),
             1 => out.push_str("[-]+"),
             2 => out.push('.'),
             3 => out.push_str("[-]"),
+            4 => out.push_str("[->+<]"),
+            5 => out.push_str("[-<+>]>+<"),
             _ => out.push('+'),
         }
         if !r.chance(4) {
             rep(out, b, d);
         }
     };
-    rep(&mut out, '+', 1 + r.below(3));
+    if r.chance(2) {
+        out.push_str(",>,<");
+    } else {
+        rep(&mut out, '+', 1 + r.below(3));
+    }
     let blocks = 1 + r.below(3);
     for _ in 0..blocks {
         let looped = r.chance(2);
         if looped {
-            out.push_str(if r.chance(2) { "[" } else { "+[" });
+            // the block is entered or skipped depending on the data
+            out.push_str(*r.pick(&["[", "+[", ",[", ">,<["]));
         }
         for _ in 0..r.below(3) {
             acc(r, &mut out);
@@ -701,15 +708,33 @@ fn gen_io(r: &mut Rng) -> String {
             }
         }
     }
-    for i in 0..n {
+    // second round of inputs and the printing of the moved values, both in a random order
+    let mut order: Vec<i32> = (0..n).collect();
+    for k in (1..order.len()).rev() {
+        order.swap(k, r.below(k as u64 + 1) as usize);
+    }
+    let interleave = r.chance(3);
+    for &i in &order {
         if !r.chance(8) {
             go(&mut out, &mut cur, i);
             out.push(if r.chance(8) { '.' } else { ',' });
+            if interleave {
+                // use the value moved out of this cell right after the cell was refilled
+                go(&mut out, &mut cur, i + n);
+                if !r.chance(4) {
+                    out.push(if r.chance(4) { '-' } else { '+' });
+                }
+                out.push('.');
+            }
         }
     }
     // the moved values are adjusted before they are printed, so they stay pending
     // (in temporaries) across the second round of input requests
-    for i in n..2 * n {
+    let mut order2: Vec<i32> = (n..2 * n).collect();
+    for k in (1..order2.len()).rev() {
+        order2.swap(k, r.below(k as u64 + 1) as usize);
+    }
+    for &i in &order2 {
         go(&mut out, &mut cur, i);
         if !r.chance(6) {
             out.push(if r.chance(4) { '-' } else { '+' });
